@@ -398,7 +398,7 @@ func (env *Env) field(base Val, name string) Val {
 			efail("field .%s of pointer to non-struct %v", name, t)
 		}
 		for i := 0; i < stt.NumFields(); i++ {
-			if stt.Field(i).Name() == name {
+			if fieldName(stt.Field(i)) == name {
 				off, _ := e.fieldOffset(stt, i)
 				return e.load(st, subLoc(loc, off, stt.Field(i).Type()))
 			}
@@ -417,7 +417,7 @@ func (env *Env) field(base Val, name string) Val {
 	}
 	if stt, ok := t.Underlying().(*types.Struct); ok {
 		for i := 0; i < stt.NumFields(); i++ {
-			if stt.Field(i).Name() == name {
+			if fieldName(stt.Field(i)) == name {
 				off, n := e.fieldOffset(stt, i)
 				return base.sub(stt.Field(i).Type(), off, n)
 			}
@@ -680,7 +680,7 @@ func (env *Env) call(x *Expr) Val {
 			efail("jsontag: %s is not a struct type", x.Args[0].Name)
 		}
 		for i := 0; i < stt.NumFields(); i++ {
-			if stt.Field(i).Name() == x.Args[1].Name {
+			if fieldName(stt.Field(i)) == x.Args[1].Name {
 				tag := reflect.StructTag(stt.Tag(i)).Get("json")
 				return Val{T: types.Typ[types.String], L: []string{e.strConst(tag)}}
 			}
@@ -1028,7 +1028,7 @@ func (env *Env) locOf(x *Expr) *Loc {
 		if p, ok := base.T.Underlying().(*types.Pointer); ok {
 			if stt, ok := p.Elem().Underlying().(*types.Struct); ok {
 				for i := 0; i < stt.NumFields(); i++ {
-					if stt.Field(i).Name() == x.Name {
+					if fieldName(stt.Field(i)) == x.Name {
 						off, _ := e.fieldOffset(stt, i)
 						return subLoc(e.ptrLoc(base), off, stt.Field(i).Type())
 					}
